@@ -1,4 +1,5 @@
 import Verif.Gen.Timing
+import Verif.Gen.Shutdown
 
 /-! # Model of leaving the stdio client context (C16)
 
@@ -54,6 +55,8 @@ structure ChildSpec where
   stdinOpen : Bool := true
   /-- it ends on its own `d` ms after the exit began (`none`: never, a real server) -/
   selfExit : Option Nat := none
+  /-- somebody else (a grandchild that inherited it) keeps the write end of its stdout open after its death -/
+  stdoutHeld : Bool := false
   deriving DecidableEq, Repr
 
 /-- Operating-system facts (hypotheses of the theorems). -/
@@ -165,13 +168,24 @@ def reapOnly (os : OS) (c : ChildSpec) : Trace :=
 def finish (d : Design) (os : OS) (p : ExitPath) (c : ChildSpec) : Trace :=
   if d.eofMeansGone && !c.stdoutOpen && !c.exited then reapOnly os c else exit d.shielded os p c
 
+/-- `_drain_stdout` (bound REGENERATED: `Gen.Shutdown.drainMs`): once the child's exit status is
+known its stdout is read to EOF so that the event loop releases the pipe; EOF is immediate unless
+somebody else holds the write end, in which case the read is given up after `drainMs`. -/
+def drainPhase (c : ChildSpec) (t : Trace) : Trace :=
+  if t.child != .running && c.stdoutHeld then { t with duration := t.duration + Verif.Gen.Shutdown.drainMs } else t
+
 /-- Leaving the context, everything included.  `none`: `__aexit__` never returns. -/
 def leave (d : Design) (os : OS) (p : ExitPath) (c : ChildSpec) (l : Load) : Option Trace :=
   match flushPhase d p c l with
   | none => none
   | some f =>
     let died := match c.selfExit with | some s => decide (s ≤ f) | none => false
-    let t := finish d os p { c with exited := c.exited || died }
+    -- a child that ends by itself while it is being waited for: the earlier of that and its reaction to SIGTERM
+    let term := match c.termDelay, c.selfExit with
+      | some a, some s => some (min a (s - f))
+      | none, some s => some (s - f)
+      | a, none => a
+    let t := drainPhase c (finish d os p { c with exited := c.exited || died, termDelay := term })
     some { signals := t.signals.map (fun x => (f + x.1, x.2)), duration := f + t.duration, child := t.child }
 
 /-! ## Several sessions on one client object
